@@ -198,6 +198,10 @@ class World:
     def check_terminal(self) -> None:
         """Oracles evaluated on states with an empty menu."""
 
+    def metrics(self) -> Dict[str, int]:
+        """Per-path maxima the explorer aggregates over all visited states."""
+        return {}
+
     def outcome(self) -> Any:
         """Canonical description of a terminal state (for distinct-outcome counts)."""
         return tuple(self.log)
@@ -231,7 +235,7 @@ class World:
         if self.terminal():
             return []
         out: List[Any] = []
-        for label in self.gate_order:
+        for label in sorted(self.gate_order, key=repr):
             fut = self.gates[label]
             if not fut.done() and fut._callbacks:
                 out.append(("gate", label))
@@ -472,6 +476,7 @@ class ExploreResult:
         self.fingerprints: set = set()
         self.violations: Dict[str, Tuple[str, List[Any]]] = {}
         self.terminal_outcomes: set = set()
+        self.maxima: Dict[str, int] = {}
 
 
 def explore(
@@ -528,6 +533,9 @@ def explore(
             menu = w.enabled()
             key = (fp, dev) if level else fp
             res.max_depth = max(res.max_depth, len(hist))
+            for mk_, mv_ in w.metrics().items():
+                if mv_ > res.maxima.get(mk_, -1):
+                    res.maxima[mk_] = mv_
             if merge:
                 if key in seen:
                     if seen[key] != menu:
